@@ -169,6 +169,10 @@ class CallMixin:
             if not is_sym(v):
                 return [(st, fractions.Fraction(v))]
             raise Unsupported(f"Fraction({v!r})", node)
+        if cls is reversed and len(args) == 1 and isinstance(args[0], RecRepeated):
+            cur = self.read_field(st, args[0].owner, args[0].field)[0][1]
+            if isinstance(cur, tuple):
+                return [(st, list(reversed(cur)))]
         if cls is reversed and len(args) == 1 and isinstance(args[0], (list, tuple)):
             return [(st, list(reversed(args[0])))]         # a concrete sequence of (possibly symbolic) elements
         if cls is slice and not kwargs and 1 <= len(args) <= 3:
